@@ -89,6 +89,15 @@ KANI_UNITS = {
         ],
         "module": "kani_tokens",
     },
+    "decode_total": {
+        "crate": "minicbor",
+        "src": "units/kani/minicbor/decode_total.rs",
+        "inject": [
+            {"copy": ("units/kani/minicbor/decode_total.rs", "minicbor/src/kani_decode_total.rs")},
+            {"append": ("minicbor/src/lib.rs", "#[cfg(kani)] mod kani_decode_total;")},
+        ],
+        "module": "kani_decode_total",
+    },
     "roundtrip": {
         "crate": "minicbor",
         "src": "units/kani/minicbor/roundtrip.rs",
